@@ -54,6 +54,9 @@ var fns = []Fn{
 	{"testOtherResult", "func testOtherResult() uint64 {\n\treturn 1\n}\n", "testOtherResult"},
 	{"testLatest", "func testLatestValue() bool {\n\treturn true\n}\n", "testLatestValue"},
 	{"failing_testRetest", "func failing_testRetestfailing_test() bool {\n\treturn false\n}\n", "failing_testRetestfailing_test"},
+	{"strWithCommentOpen", "var pat = \"logs/*\"\n", ""},
+	{"lineCommentWithOpen", "// matches a/* and b\nvar pat2 = 1\n", ""},
+	{"strWithCommentClose", "var pat3 = \"*/ end\"\n", ""},
 	{"testLong", "func testWith2Words() bool {\n\treturn helper2()\n}\n\nfunc helper2() bool {\n\treturn true\n}\n", "testWith2Words"},
 }
 
@@ -85,7 +88,7 @@ func (d Dir) ID() string {
 	return fmt.Sprintf("a[%s]b[%s]extra=%s", n(d.F1), n(d.F2), d.Extra)
 }
 
-var extras = []string{"none", "x_test.go", "x.gold.v", "x.go~", "subdir", "README.md", "zz.txt", "symlink"}
+var extras = []string{"none", "x_test.go", "x.gold.v", "x.go~", "subdir", "README.md", "zz.txt", "symlink", "Z_ext_test.go"}
 
 func (d Dir) files() map[string]string {
 	out := map[string]string{}
@@ -117,6 +120,9 @@ func (d Dir) files() map[string]string {
 		out["sub/c.go"] = "package sub\n\nfunc testInSub() bool {\n\treturn true\n}\n"
 	case "README.md":
 		out["README.md"] = "# notes\n\nfunc testInReadme() bool {\n"
+	case "Z_ext_test.go":
+		// an external test file (package semantics_test) that sorts before every other file
+		out["Z_ext_test.go"] = "package semantics_test\n\nfunc testInExternalTest() bool {\n\treturn true\n}\n"
 	case "zz.txt":
 		out["zz.txt"] = "func failing_testInTxt() bool {\n"
 	case "symlink":
@@ -192,6 +198,9 @@ func parseGo(src string) (ts []T, methods []string, problem string) {
 	f, err := parser.ParseFile(fset, "generated_test.go", src, 0)
 	if err != nil {
 		return nil, nil, "generated Go file does not parse: " + err.Error()
+	}
+	if f.Name.Name != "semantics" {
+		return nil, nil, "generated Go file is in package " + f.Name.Name + ", the test functions live in package semantics (it cannot call them)"
 	}
 	for _, dcl := range f.Decls {
 		fd, ok := dcl.(*ast.FuncDecl)
@@ -592,7 +601,7 @@ func main() {
 		}
 		// compile one representative per distinct (source files, generated file)
 		sig := fmt.Sprint(d.F1, d.F2) + r.goSrc
-		if !seenSig[sig] && d.Extra == "none" && len(compileItems) < compileCap {
+		if !seenSig[sig] && (d.Extra == "none" || strings.HasSuffix(d.Extra, "_test.go")) && len(compileItems) < compileCap {
 			seenSig[sig] = true
 			compileItems[d.ID()] = d
 			compileSrcs[d.ID()] = r.goSrc
@@ -609,7 +618,7 @@ func main() {
 	os.RemoveAll(root)
 	os.Exit(acc.Done(ev.Finish{
 		Prop: "C18", Tier: *tier, Level: "exploration", Start: start,
-		Rule:        "all package directories with a.go holding every sequence of <=2 (thorough <=3) distinct items of a 22-item function-header alphabet (names containing 'test' / 'failing_test' a second time, functions named test… with a parameter, type parameters, another result type, plain, failing_, disabled_, helper, method, digit suffix, capital T, underscore and non-ASCII suffix, failing_ twin of a plain test, failing_ and test as infixes, column-0 and indented decoys inside a block comment and a raw string, multi-word), the first file also under 6 names that share a prefix or suffix with filtered names (latest.go, a.gold.go, gold.v.go, test_util.go, a_testing.go, a~b.go, Zeta.go, B.go, _a.go, 0.go), directories under parents named w[1], a*b, q?x, 'sp ace', {a,b}, back\\slash; optionally b.go with <=1 (thorough <=2) further items, x one extra entry {none, x_test.go, x.gold.v, x.go~, sub-directory, README.md, zz.txt} each holding a decoy header, or a .go file that is a symbolic link to a file elsewhere (a real source file of the package); the real test_gen binary run in -coq and -go mode, to standard output and with -out into an existing longer file (same bytes); reference = go/parser over the non-test .go files in name order; oracles: Coq list == Go list == reference (order and Fail marking), method names unique, distinct generated Go files compiled against their package with go vet; evaluations = test_gen runs; non-trivial = directory with at least one test function",
+		Rule:        "all package directories with a.go holding every sequence of <=2 (thorough <=3) distinct items of a 25-item function-header alphabet (string literals and line comments containing /* or */, names containing 'test' / 'failing_test' a second time, functions named test… with a parameter, type parameters, another result type, plain, failing_, disabled_, helper, method, digit suffix, capital T, underscore and non-ASCII suffix, failing_ twin of a plain test, failing_ and test as infixes, column-0 and indented decoys inside a block comment and a raw string, multi-word), the first file also under 6 names that share a prefix or suffix with filtered names (latest.go, a.gold.go, gold.v.go, test_util.go, a_testing.go, a~b.go, Zeta.go, B.go, _a.go, 0.go), directories under parents named w[1], a*b, q?x, 'sp ace', {a,b}, back\\slash; optionally b.go with <=1 (thorough <=2) further items, x one extra entry {none, x_test.go, x.gold.v, x.go~, sub-directory, README.md, zz.txt, an external test file Z_ext_test.go of package semantics_test} each holding a decoy header, or a .go file that is a symbolic link to a file elsewhere (a real source file of the package); the real test_gen binary run in -coq and -go mode, to standard output and with -out into an existing longer file (same bytes); reference = go/parser over the non-test .go files in name order; oracles: Coq list == Go list == reference (order and Fail marking), method names unique, distinct generated Go files compiled against their package with go vet; evaluations = test_gen runs; non-trivial = directory with at least one test function",
 		Assumptions: []string{"a semantics package is gofmt-formatted and its test…/failing_test… functions have signature func() bool", "functions named exactly `test` are outside the alphabet"},
 		Extra:       map[string]any{"distinct_nontrivial": len(acc.Sets["nontrivial"])},
 	}))
